@@ -267,11 +267,14 @@ class SimThread:
 
 
 class Scheduler:
-    def __init__(self, strategy, max_steps=2_000_000, max_op_steps=None, hot_files=(), record_trace=False):
+    def __init__(self, strategy, max_steps=2_000_000, max_op_steps=None, hot_files=(), record_trace=False, coarse_files=()):
         self.strategy = strategy
         self.max_steps = max_steps
         self.max_op_steps = max_op_steps
         self.hot_files = tuple(hot_files)
+        # frames of these files get no line tracing and are no scheduling points: pure decoding routines that only touch
+        # thread-private data, so a pre-emption inside them is equivalent to one just before or after (partial-order reduction)
+        self.coarse_files = tuple(coarse_files)
         self.threads = []
         self.current = None
         self.running = False
@@ -313,6 +316,9 @@ class Scheduler:
         fn = code.co_filename
         if fn.startswith(_PKG_PREFIX):
             rel = fn[len(_PKG_PREFIX):]
+            if rel in self.coarse_files:
+                self.codes[code] = False
+                return False
             cid = zlib.crc32((rel + ":" + code.co_name).encode()) & 0xFFFFF
             info = (cid, rel in self.hot_files or rel.rsplit("/", 1)[-1] in self.hot_files, rel)
         else:
